@@ -78,6 +78,7 @@ def step (st : St) (toks : List String) : St × String :=
     | _, _, _ => bad
   | ["tables"] => (st, hexNames st.tabs)
   | ["kf", "K4", "recreate", _] => (st, "diverged || converged")
+  | ["kf", "K3", "dynamic"] => (st, "diverged || converged")
   | ["kf", "K3", "worker.tableState"] => (st, "nonlinearizable || linearizable")
   | _ => bad
 
